@@ -260,9 +260,11 @@ class MetricPickleReceiver(MetricReceiver, Int32StringReceiver):
   def stringReceived(self, data):
     try:
       datapoints = self.unpickler.loads(data)
-    # Pickle can throw a wide range of exceptions
-    except (pickle.UnpicklingError, ValueError, IndexError, ImportError,
-            KeyError, EOFError) as exc:
+      iter(datapoints)  # the payload has to be a list of datapoints
+    # Pickle can throw a wide range of exceptions (UnpicklingError, ValueError,
+    # IndexError, ImportError, KeyError, EOFError, TypeError, AttributeError,
+    # OverflowError, MemoryError, ...) depending on how the frame is broken
+    except Exception as exc:
       log.listener('invalid pickle received from %s, error: "%s", ignoring' % (
                    self.peerName, exc))
       return
@@ -276,12 +278,16 @@ class MetricPickleReceiver(MetricReceiver, Int32StringReceiver):
 
       try:
         datapoint = (float(value), float(timestamp))  # force proper types
-      except (ValueError, TypeError):
+      except (ValueError, TypeError, OverflowError):
         continue
 
       # convert python2 unicode objects to str/bytes
       if not isinstance(metric, str):
-        metric = metric.encode('utf-8')
+        try:
+          metric = metric.encode('utf-8')
+        except AttributeError:  # not a string at all
+          log.listener('Error decoding pickle: invalid metric name %r' % (metric,))
+          continue
 
       self.metricReceived(metric, datapoint)
 
